@@ -19,7 +19,7 @@ package trzsz
 //
 // Events (ndjson, one recorded run between two `reset` events) consumed by spec/ZmodemTrace.tla:
 //   reset{id}                                 new run
-//   srv{k,v,id}     srvdone{id,disp}          server chunk handed to the pump / pump back in Read
+//   srv{k,v,st,id}  srvdone{id,disp}          server chunk handed to the pump / pump back in Read
 //                                             k: hdr0 hdr1 data fin can cno probe; v: veto none|can|cno
 //                                             disp: pass (chunk reached the terminal) | held
 //   inp{k,id}       inpdone{id,disp}          user input (ctrlc|text) handed to wrapInput / back in Read
@@ -399,7 +399,7 @@ func (s *c19Scn) waitSessionInit(filter *TrzszFilter) {
 	time.Sleep(time.Millisecond)
 }
 
-func (s *c19Scn) feedSrv(kind, veto string) {
+func (s *c19Scn) feedSrv(kind, veto, start string) {
 	s.nextID++
 	id := s.nextID
 	tok := fmt.Sprintf("#c19:%d;", id)
@@ -426,7 +426,7 @@ func (s *c19Scn) feedSrv(kind, veto string) {
 	case "cno":
 		b = append(b, []byte("\r\nsz: cannot open /nonexistent: No such file or directory\r\n")...)
 	}
-	s.emit(map[string]any{"e": "srv", "k": kind, "v": veto, "id": id})
+	s.emit(map[string]any{"e": "srv", "k": kind, "v": veto, "st": start, "id": id})
 	if !s.srvR.feed(b, c19PumpWait) {
 		s.hang = "output pump did not return to Read within 15s after " + kind
 		return
@@ -476,7 +476,16 @@ func (s *c19Scn) quiet(d time.Duration, long bool) {
 		idle := time.Since(s.last)
 		s.mu.Unlock()
 		if idle >= d {
-			break
+			// after a stall of the whole process an overdue timer of the code and this waiter become
+			// runnable together: give overdue work a moment and look again before declaring quiet
+			time.Sleep(150 * time.Millisecond)
+			s.mu.Lock()
+			idle2 := time.Since(s.last)
+			s.mu.Unlock()
+			if idle2 >= d+150*time.Millisecond {
+				break
+			}
+			continue
 		}
 		if time.Now().After(deadline) {
 			s.hang = "no quiet period: events keep arriving"
@@ -554,13 +563,13 @@ func (s *c19Scn) run(plan map[string]any, env *c19Env) {
 			if up {
 				k = "hdr1"
 			}
-			s.feedSrv(k, veto)
+			s.feedSrv(k, veto, start)
 			if early, _ := m["early"].(bool); !early {
 				s.waitSessionInit(filter)
 			}
 		case "srv":
 			k, _ := m["k"].(string)
-			s.feedSrv(k, "none")
+			s.feedSrv(k, "none", "-")
 		case "ctrlc", "text":
 			s.feedCli(m["a"].(string))
 		case "hout":
